@@ -284,6 +284,9 @@ type downSender struct {
 func (d *downSender) ID() uint64              { return uint64(d.h.id) }
 func (d *downSender) GetStream() types.Stream { return d }
 func (d *downSender) AppendHeaders(ctx context.Context, headers api.HeaderMap, end bool) error {
+	// whose headers are these?  a filter's direct response carries x-direct; a hijack reuses the REQUEST headers ("service") or a
+	// filter-supplied map (x-hijacked); an upstream response carries only x-status.  (The status of a hijack lives in a context
+	// variable that TerminateStream and the worker may write concurrently: it is read, but the kind does not depend on it.)
 	kind, code := "up", 0
 	if headers != nil {
 		if v, ok := headers.Get("x-direct"); ok && v == "1" {
@@ -292,12 +295,14 @@ func (d *downSender) AppendHeaders(ctx context.Context, headers api.HeaderMap, e
 		if v, ok := headers.Get("x-status"); ok {
 			code, _ = strconv.Atoi(v)
 		}
-	}
-	if kind == "up" {
-		if v, err := variable.GetString(ctx, types.VarHeaderStatus); err == nil && v != "" {
-			if _, isResp := headers.Get("x-status"); !isResp {
+		if kind == "up" {
+			_, isReq := headers.Get("service")
+			_, isFilt := headers.Get("x-hijacked")
+			if isReq || isFilt {
 				kind = "hijack"
-				code, _ = strconv.Atoi(v)
+				if v, err := variable.GetString(ctx, types.VarHeaderStatus); err == nil && v != "" {
+					code, _ = strconv.Atoi(v)
+				}
 			}
 		}
 	}
